@@ -481,6 +481,7 @@ def _check_shapes(case, call, ci, s, prev, names, periods, bad):
             continue
         if not before['values'] and after['names'] != names:
             bad('C17|TracerMixin|trace-names', 'call %d period %d: Trace.names=%s, traced variables=%s' % (ci, p, after['names'], names))
+            continue            # every snapshot is of the wrong variables: one report, not six
         if before['values'] and after != before and after['names'] != names:
             # (same width, or the call would have died: finding #16) the snapshots just appended hold `names`, the Trace says otherwise
             bad(STALE_SIG, 'call %d period %d: %s(..., trace=%r) appended snapshots of variables %s to a Trace whose names stay %s'
